@@ -347,10 +347,33 @@ func (a *Ctx) CombineViews(b *Ctx) {
 			bBest[k] = o.Verdict // the worst verdict of the inlined view for this key
 		}
 	}
+	// vacuity guard for rescues: a rule group that finds fewer constructs on the inlined view
+	// than on the source as written has lost its grip there (e.g. it classifies return
+	// statements that the expansion turned into assignments): its discharges do not count
+	// (several violations under one key - one per failing table row, say - count once)
+	weigh := func(obs []Obligation) map[string]int {
+		n := map[string]int{}
+		seenV := map[string]bool{}
+		for _, o := range obs {
+			if o.Verdict == Violation {
+				if k := o.Rule + "|" + o.Construct; !seenV[k] {
+					seenV[k] = true
+					n[o.Rule]++
+				}
+				continue
+			}
+			n[o.Rule]++
+		}
+		return n
+	}
+	nA, nB := weigh(a.Obs), weigh(b.Obs)
 	// keys of a: upgraded when the inlined view discharges every instance of the key
 	for k, is := range idx {
 		bv, ok := bBest[k]
 		if !ok {
+			continue
+		}
+		if nB[k.rule] < nA[k.rule] {
 			continue
 		}
 		for _, i := range is {
